@@ -22,7 +22,7 @@ RULE = ('mode A: small concurrent programs (2-4 clients x 2-5 calls over 1-3 key
 DISTINCT = ('schedules_with_preemption_in_op', 'free_runs_with_overlap')
 REQUIRED = ('histories_checked', 'schedules_shared_object', 'schedules_separate_objects', 'lock_waits_observed',
             'file_backed_values', 'free_runs_threads', 'free_runs_processes', 'lru_stat_schedules', 'expired_present_keys',
-            'handles_opened_during_schedules')
+            'handles_opened_during_schedules', 'partly_consumed_iterations')
 ASSUMPTIONS = ('threads are interleaved at SQL-statement and value-file-operation granularity (where diskcache\'s '
                'critical sections begin and end); interleavings inside SQLite are reached only by free-running runs',
                'cross-process ordering uses CLOCK_MONOTONIC shared by processes of one machine')
@@ -83,12 +83,23 @@ def gen_program(rng, nclients):
                 ops.append(('iter', (), {}))
             else:
                 ops.append(('setitem', (k, value(ci, k)), {}))
+        if rng.random() < 0.12:
+            # a partly consumed iteration: the client takes one key, goes on with other calls and finishes the loop later
+            i = rng.randrange(0, len(ops) + 1)
+            ops.insert(i, ('iter_open', (), {'reverse': rng.random() < 0.3}))
+            ops.insert(rng.randrange(i + 1, len(ops) + 1), ('iter_rest', (), {}))
         prog.append(ops)
     init = {}
     for k in keys:
         if rng.random() < 0.5:
             init[k] = 7 if k == 'n' else stamp(9, len(init), rng.random() < 0.5)
+    if any(o[0] == 'iter_open' for ops in prog for o in ops):
+        for k in ('y1', 'y2', 'y3'):         # keys nobody touches, so that the loop has something left to yield
+            init[k] = stamp(9, len(init), False)
     return keys, init, prog
+
+
+OPEN_ITERATIONS = {}
 
 
 def do_op(cache, op, args, kw):
@@ -120,6 +131,13 @@ def do_op(cache, op, args, kw):
         return len(cache)
     if op == 'iter':
         return list(cache)
+    if op == 'iter_open':
+        it = reversed(cache) if kw.get('reverse') else iter(cache)
+        OPEN_ITERATIONS[threading.get_ident()] = it
+        return next(it, None)
+    if op == 'iter_rest':
+        it = OPEN_ITERATIONS.pop(threading.get_ident(), None)
+        return list(it) if it is not None else []
     raise ValueError(op)
 
 
@@ -185,7 +203,7 @@ def judge_history(res, ops, init, label, keys, extra):
                 if k not in removed_keys and k not in ks:
                     res.violation('iteration skipped %r, present during the whole run' % (k,), dict(extra, label=label))
                     return False
-    plain = [o for o in ops if o['op'] != 'iter']
+    plain = [o for o in ops if o['op'] not in ('iter', 'iter_open', 'iter_rest')]
     kept, dropped = lin.drop_tolerated_misses(plain, lookup_info)
     res.count('tolerated_misses', dropped)
     init_state = tuple(sorted(init.items(), key=repr))
@@ -218,7 +236,7 @@ def mode_a(dc, sc, res, rng, tier, label, variant):
         expired_keys = [k for k in keys if rng.random() < 0.7]
         for k in expired_keys:
             init.pop(k, None)
-        prog = [[o for o in ops if o[0] not in ('len', 'iter')] or [('get', (keys[0], 'MISS'), {})] for ops in prog]
+        prog = [[o for o in ops if o[0] not in ('len', 'iter', 'iter_open', 'iter_rest')] or [('get', (keys[0], 'MISS'), {})] for ops in prog]
     if variant == 'lru':
         settings['eviction_policy'] = rng.choice(['least-recently-used', 'least-frequently-used'])
         settings['statistics'] = rng.random() < 0.5
@@ -238,7 +256,7 @@ def mode_a(dc, sc, res, rng, tier, label, variant):
     caches = [setup if shared else None if late else dc.Cache(d, timeout=0) for _ in range(nclients)]
     reopen_at = [rng.randrange(0, len(prog[ci]) + 1) if late and rng.random() < 0.5 else -1 for ci in range(nclients)]
     opened = []
-    strategy = rng.choice(['random', 'random', 'preempt', 'preempt', 'roundrobin'])
+    strategy = rng.choice(['random', 'random', 'preempt', 'preempt', 'roundrobin', 'ops', 'ops'])
     pts = {rng.randrange(0, 120) for _ in range(rng.randrange(1, 4))}
     sch = Sched(rng, clock, strategy=strategy, preempt_points=pts)
     rec = Recorder(sch)
@@ -269,6 +287,7 @@ def mode_a(dc, sc, res, rng, tier, label, variant):
             return
         res.count('schedules_shared_object' if shared else 'schedules_separate_objects')
         res.count('handles_opened_during_schedules', len(opened))
+        res.count('partly_consumed_iterations', sum(1 for ops in prog for o in ops if o[0] == 'iter_open'))
         if variant == 'lru':
             res.count('lru_stat_schedules')
         res.count('lock_waits_observed', sch.lock_waits)
